@@ -164,5 +164,10 @@ class Check(PropertyCheck):
             return 1
         f = bytes.fromhex(p["file_hex"])
         impl = declib.run_impl([f])[0]
-        print("impl:", impl[0], "\nref_noexc:", declib.run_model("noexc", [f])[0], "\nlibbz2:", declib.run_libbz2([f])[0])
-        return 0 if impl[0] == declib.run_model("noexc", [f])[0] else 1
+        lib = declib.run_libbz2([f])[0]
+        if len(f) > 20000:        # big files: the reference library is the oracle (the extracted model is slow on them)
+            print("impl:", impl[0], "\nlibbz2:", lib)
+            return 0 if impl[0] == lib else 1
+        ref = declib.run_model("noexc", [f])[0]
+        print("impl:", impl[0], "\nref_noexc:", ref, "\nlibbz2:", lib)
+        return 0 if impl[0] == ref else 1
